@@ -173,6 +173,12 @@ func TestE2E(t *testing.T) {
 	if err := writeLines(filepath.Join(out, "cases.txt"), cases); err != nil {
 		t.Fatal(err)
 	}
+	reqNotesMu.Lock()
+	notes := append([]string(nil), reqNotes...)
+	reqNotesMu.Unlock()
+	if err := writeLines(filepath.Join(out, "reqnotes.txt"), notes); err != nil {
+		t.Fatal(err)
+	}
 	if err := writeLines(filepath.Join(out, "impl.txt"), impl); err != nil {
 		t.Fatal(err)
 	}
